@@ -66,15 +66,19 @@ def install(classes, hooks):
     def init(self, name):
         self.name = name
 
+    def rep(self):
+        return "<%s>" % (self.name,)
+
     for arch in ARCHETYPES:
         d = dict(hooks)
         d.update(_methods(arch))
         d["__init__"] = init
+        d["__repr__"] = rep
         classes["trap:" + arch] = type("Trap_" + arch, (NodeMixin,), d)
         d = dict(d)
         d["__slots__"] = ("name",)
         classes["trap:light:" + arch] = type("TrapLight_" + arch, (LightNodeMixin,), d)
     # plain named twins used as the differential reference
 
-    classes["named"] = type("Named", (NodeMixin,), dict(hooks, __init__=init))
-    classes["named:light"] = type("NamedLight", (LightNodeMixin,), dict(hooks, __init__=init, __slots__=("name",)))
+    classes["named"] = type("Named", (NodeMixin,), dict(hooks, __init__=init, __repr__=rep))
+    classes["named:light"] = type("NamedLight", (LightNodeMixin,), dict(hooks, __init__=init, __repr__=rep, __slots__=("name",)))
